@@ -40,6 +40,7 @@ def run(ctx, chk):
     chk.rule("C02.R7", "no count 0..255 makes a shift/rotate helper abort", floor=14)
     chk.rule("C02.R8", "shl and sal are the same operation", floor=2)
     chk.rule("C02.R9", "count>=1: flags outside the Intel write-set unchanged, written flags assigned on every path", floor=100)
+    chk.rule("C02.R12", "shifted/rotated value, CF, SF (shifts) and OF (count 1) equal k single-bit 8086 steps, for every operand value and every count", floor=8)
     chk.rule("C02.R11", "the `, cl` forms pass exactly CL (bits 0..7 of CX, zero extended) as the count", floor=6)
     chk.rule("C02.R10", "byte and word helper of a mnemonic have the same branch conditions, flag calls and result expression (no dropped operand, no single differing operator/constant)", floor=11)
     sibling_rule(ctx, chk)
@@ -163,6 +164,10 @@ def run(ctx, chk):
                     chk.violation("C02.R9", unit, "OF-never-written-count1", f"{m} by 1 leaves OF untouched", where)
                 else:
                     chk.ok("C02.R9", unit + ":OF@1", stt)
+
+    # ---- R12 exact values
+    counts = list(range(0, 256)) if ctx.tier == "thorough" else list(range(0, 35)) + [63, 64, 127, 128, 200, 255]
+    exact_shift_rule(ctx, chk, tabs, counts)
 
     # ---- productions: NOT exactness, TEST no write-back, frames, count width
     from units import address_overrides
@@ -362,3 +367,150 @@ def sibling_rule(ctx, chk):
                           f"byte_{m} and word_{m} differ in exactly one {what} of a {kind} expression (byte: {x}, word: {y}) after width normalisation: one of the two is wrong", where)
         else:
             chk.undecided_("C02.R10", m, f"the two helpers are formulated differently ({r[1]} / {r[2]} unmatched expressions)")
+
+
+# ---------------------------------------------------------------------------------------------------------------
+# R12: the shifted / rotated value, CF, SF and (count 1) OF, exactly, for every count
+def reference_shift(op, w, k, vname):
+    """k single-bit 8086 steps on a symbolic operand: (result bits low..high, CF) as copies of input bits / constants"""
+    bits = [("c", vname, i) for i in range(w)]
+    cf = ("c", "flag", 0)
+    for _ in range(k):
+        if op in ("shl", "sal"):
+            cf, bits = bits[-1], [0] + bits[:-1]
+        elif op == "shr":
+            cf, bits = bits[0], bits[1:] + [0]
+        elif op == "sar":
+            cf, bits = bits[0], bits[1:] + [bits[-1]]
+        elif op == "rol":
+            cf, bits = bits[-1], [bits[-1]] + bits[:-1]
+        elif op == "ror":
+            cf, bits = bits[0], bits[1:] + [bits[0]]
+        elif op == "rcl":
+            cf, bits = bits[-1], [cf] + bits[:-1]
+        elif op == "rcr":
+            cf, bits = bits[0], bits[1:] + [cf]
+        else:
+            raise KeyError(op)
+    return bits, cf
+
+
+def _subst(b, sigma):
+    if isinstance(b, tuple) and b[0] in ("c", "n") and (b[1], b[2]) in sigma:
+        v = sigma[(b[1], b[2])]
+        return v if b[0] == "c" else 1 - v
+    return b
+
+
+def _xor(a, b):
+    return (a ^ b) if a in (0, 1) and b in (0, 1) else None
+
+
+def exact_shift_rule(ctx, chk, tabs, counts):
+    """For each helper and each count k: the result must be, bit for bit, what k single-bit steps give; CF the last bit
+    moved out; for shifts SF the top bit of the result; for k = 1 OF as the manual defines it.  The run is partitioned on
+    the (at most four) input bits those flags are copies of, so that the flag stores under `if bit {set} else {unset}`
+    become constants; the operand itself stays symbolic (every value at once).  A bit the analysis cannot track exactly
+    makes that instance undecided; two exact bits that differ are a defect with a concrete operand as witness."""
+    from itertools import product
+    P = ctx.program
+    done = set()
+    for nt in ("byte_shift_rotate", "word_shift_rotate"):
+        w = 8 if nt.startswith("byte") else 16
+        for m, fid in sorted((k_, v) for k_, v in tabs[nt].items() if isinstance(k_, str)):
+            if fid is None or fid not in P.fns or (fid, w) in done:
+                continue
+            try:
+                reference_shift(m, w, 0, "v")
+            except KeyError:
+                continue
+            done.add((fid, w))
+            fn = P.fns[fid]
+            unit = f"{m}.{'b' if w == 8 else 'w'}"
+            where = fn_where(fn)
+            names = [l["name"] for l in fn["locals"][1:fn["argc"] + 1]]
+            cname, vname = names[-1] or "arg3", names[-2] or "arg2"
+            bad = {}        # finding kind -> (count, witness text)
+            undec = {}
+            n_ok = 0
+            for k in counts:
+                if k == 0:
+                    continue
+                ebits, ecf = reference_shift(m, w, k, vname)
+                shift = m in ("shl", "sal", "shr", "sar")
+                atoms = set()
+                for b in [ecf, ebits[w - 1]] + ([ebits[w - 2], ("c", vname, w - 1)] if k == 1 else []):
+                    if isinstance(b, tuple):
+                        atoms.add((b[1], b[2]))
+                atoms = sorted(atoms)
+                for vals in product((0, 1), repeat=len(atoms)):
+                    sigma = dict(zip(atoms, vals))
+                    try:
+                        s = summarize_fn(ctx, fn, specialise={cname: k}, assume=sigma)
+                    except Unsupported as e:
+                        undec.setdefault("run", (k, str(e)))
+                        continue
+                    if s.st.dead or s.ret is None or s.ret.kind != "int":
+                        undec.setdefault("run", (k, "no returning path (abort sites: R7)"))
+                        continue
+                    want = [_subst(b, sigma) for b in ebits]
+                    got = [_subst(b, sigma) for b in s.ret.bits]
+                    wit = ", ".join(f"{a.upper() if a == 'flag' else a} bit {i} = {v}" for (a, i), v in sigma.items())
+                    for j in range(w):
+                        g, e = got[j], want[j]
+                        if g == e:
+                            continue
+                        if isinstance(g, tuple) and g[0] == "d" or not (g in (0, 1) or (isinstance(g, tuple) and g[0] in "cn")):
+                            undec.setdefault("result", (k, f"bit {j} not tracked exactly"))
+                        else:
+                            def show(x):
+                                return str(x) if x in (0, 1) else f"{'' if x[0] == 'c' else 'not '}{'CF' if x[1] == 'flag' else 'operand bit ' + str(x[2])}"
+                            bad.setdefault("result-differs", (k, f"count {k}: result bit {j} is {show(g)}, {k} single-bit steps give {show(e)}" + (f" ({wit})" if wit else "")))
+                    ecf_v = _subst(ecf, sigma)
+                    gcf = _subst(s.flag.bits[FBIT["CF"]], sigma)
+                    if ecf_v in (0, 1):
+                        if gcf == ecf_v:
+                            pass
+                        elif gcf in (0, 1):
+                            bad.setdefault("cf-differs", (k, f"count {k}: CF = {gcf}, the last bit moved out is {ecf_v} ({wit})"))
+                        else:
+                            undec.setdefault("CF", (k, "CF not a constant under the partition"))
+                    res_msb = _subst(ebits[w - 1], sigma)
+                    if shift and res_msb in (0, 1):
+                        gsf = _subst(s.flag.bits[FBIT["SF"]], sigma)
+                        if gsf == res_msb:
+                            pass
+                        elif gsf in (0, 1):
+                            bad.setdefault("sf-differs", (k, f"count {k}: SF = {gsf}, the top bit of the result is {res_msb} ({wit})"))
+                        else:
+                            undec.setdefault("SF", (k, "SF not a constant under the partition"))
+                    if k == 1:
+                        msb2 = _subst(ebits[w - 2], sigma)
+                        old_msb = sigma.get((vname, w - 1))
+                        if m in ("shl", "sal", "rol", "rcl"):
+                            eof = _xor(res_msb, ecf_v)
+                        elif m == "shr":
+                            eof = old_msb
+                        elif m == "sar":
+                            eof = 0
+                        else:
+                            eof = _xor(res_msb, msb2)
+                        gof = _subst(s.flag.bits[FBIT["OF"]], sigma)
+                        if eof is None:
+                            undec.setdefault("OF", (k, "reference OF not constant under the partition"))
+                        elif gof == eof:
+                            pass
+                        elif gof in (0, 1):
+                            bad.setdefault("of-differs", (k, f"count 1: OF = {gof}, the manual gives {eof} ({wit})"))
+                        else:
+                            undec.setdefault("OF", (k, "OF not a constant under the partition"))
+                    n_ok += 1
+            for kind, (k, text) in sorted(bad.items()):
+                chk.violation("C02.R12", unit, kind, f"{fn['name']}: {text}", where, witness=text)
+            for kind, (k, text) in sorted(undec.items()):
+                if kind not in bad:
+                    chk.undecided_("C02.R12", f"{unit}:{kind}", f"count {k}: {text}")
+            if not bad and not undec:
+                chk.ok("C02.R12", unit, f"{len([c for c in counts if c])} counts x input partitions ({n_ok} runs): result bits, CF{', SF' if m in ('shl', 'sal', 'shr', 'sar') else ''} and OF@1 equal the single-step reference")
+            elif not bad:
+                chk.ok("C02.R12", unit + ":partial", f"{n_ok} runs, no exact bit differs from the reference", nontrivial=False)
